@@ -510,6 +510,91 @@ impl Monitor for OwedQuoteMon {
     }
 }
 
+/// Function level: `collect_rewards_quote` against the program's own pipeline (`next_whirlpool_reward_infos` ->
+/// `next_reward_growths_inside` -> `next_position_modify_liquidity_update`) on synthetic but consistent states: pool
+/// liquidity and emission rates of every magnitude (rates that the liquidity does not divide, liquidity above the
+/// rate), idle times from a second to a year, one to three rewards, in-range positions holding all or part of the
+/// pool's liquidity, tick accumulators and checkpoints below the global growth. Cases whose amount leaves 62 bits are skipped.
+fn owed_rewards_sweep(seed: u64, n: usize) -> Acc {
+    use whirlpool::manager::position_manager::next_position_modify_liquidity_update;
+    use whirlpool::manager::tick_manager::next_reward_growths_inside;
+    use whirlpool::manager::whirlpool_manager::next_whirlpool_reward_infos;
+    use whirlpool::state::{Position, Tick, Whirlpool};
+    let mut acc = Acc::default();
+    let mut r = rnd::rng(seed ^ 0x0EED_0EED);
+    for case in 0..n {
+        let lpool = rnd::log_u128(&mut r, 110).max(1);
+        let lpos = match r.gen_range(0..3) { 0 => lpool, 1 => r.gen_range(1..=lpool), _ => rnd::log_u128(&mut r, 64).clamp(1, lpool) };
+        let dt: u64 = *rnd::pick(&mut r, &[1u64, 7, 60, 3_600, 86_400, 1_000_003, 31_536_000]);
+        let t0: u64 = r.gen_range(0..1u64 << 40);
+        let mut wp = Whirlpool::default();
+        wp.liquidity = lpool;
+        wp.tick_spacing = 64;
+        wp.sqrt_price = 1u128 << 64;
+        wp.tick_current_index = 0;
+        wp.reward_last_updated_timestamp = t0;
+        let (mut tl, mut tu) = (Tick::default(), Tick::default());
+        tl.initialized = true;
+        tu.initialized = true;
+        let mut pos = Position { liquidity: lpos, tick_lower_index: -128, tick_upper_index: 128, ..Default::default() };
+        let rewards = r.gen_range(1..=3usize);
+        for k in 0..rewards {
+            wp.reward_infos[k].mint = Pubkey::new_from_array([k as u8 + 1; 32]);
+            wp.reward_infos[k].emissions_per_second_x64 = if r.gen_range(0..5) == 0 { 0 } else { rnd::log_u128(&mut r, 118) };
+            let g = rnd::log_u128(&mut r, 100);
+            wp.reward_infos[k].growth_global_x64 = g;
+            let lo = if g == 0 { 0 } else { r.gen_range(0..=g) };
+            let up = if g - lo == 0 { 0 } else { r.gen_range(0..=g - lo) };
+            tl.reward_growths_outside[k] = lo;
+            tu.reward_growths_outside[k] = up;
+            let inside = g - lo - up;
+            pos.reward_infos[k].growth_inside_checkpoint = if inside == 0 { 0 } else { r.gen_range(0..=inside) };
+            pos.reward_infos[k].amount_owed = if r.gen() { 0 } else { r.gen_range(0..1u64 << 40) };
+        }
+        let now = t0 + dt;
+        let Ok(infos) = next_whirlpool_reward_infos(&wp, now) else {
+            acc.count("owed_reward_sweep_program_refuses");
+            continue;
+        };
+        let inside = next_reward_growths_inside(0, &tl, -128, &tu, 128, &infos);
+        // keep to amounts the position account can hold comfortably
+        if (0..3).any(|k| ((num_bigint::BigUint::from(inside[k].wrapping_sub(pos.reward_infos[k].growth_inside_checkpoint)) * num_bigint::BigUint::from(lpos)) >> 64u32).bits() > 62) {
+            acc.count("owed_reward_sweep_skipped_large");
+            continue;
+        }
+        let Ok(upd) = next_position_modify_liquidity_update(&pos, 0, 0, 0, &inside) else {
+            acc.count("owed_reward_sweep_program_refuses");
+            continue;
+        };
+        let mut pf = sdk::WhirlpoolFacade { tick_spacing: 64, liquidity: lpool, sqrt_price: 1u128 << 64, tick_current_index: 0, reward_last_updated_timestamp: t0, ..Default::default() };
+        let mut posf = sdk::PositionFacade { liquidity: lpos, tick_lower_index: -128, tick_upper_index: 128, ..Default::default() };
+        let fac = |t: &Tick| sdk::TickFacade { initialized: true, reward_growths_outside: t.reward_growths_outside, ..Default::default() };
+        for k in 0..3 {
+            pf.reward_infos[k] = sdk::WhirlpoolRewardInfoFacade { emissions_per_second_x64: wp.reward_infos[k].emissions_per_second_x64, growth_global_x64: wp.reward_infos[k].growth_global_x64 };
+            posf.reward_infos[k] = sdk::PositionRewardInfoFacade { growth_inside_checkpoint: pos.reward_infos[k].growth_inside_checkpoint, amount_owed: pos.reward_infos[k].amount_owed };
+        }
+        let (tlf, tuf) = (fac(&tl), fac(&tu));
+        acc.evaluations += 1;
+        acc.count("owed_reward_sweep_cases");
+        if wp.reward_infos.iter().any(|x| x.emissions_per_second_x64 > lpool) {
+            acc.count("owed_reward_sweep_rate_above_liquidity");
+        } else {
+            acc.count("owed_reward_sweep_liquidity_above_rate");
+        }
+        let want = [upd.reward_infos[0].amount_owed, upd.reward_infos[1].amount_owed, upd.reward_infos[2].amount_owed];
+        match quiet_catch(|| sdk::collect_rewards_quote(pf, posf, tlf, tuf, now, None, None, None)).unwrap_or(Err("sdk panicked")) {
+            Ok(q) => {
+                let got = [q.rewards[0].rewards_owed, q.rewards[1].rewards_owed, q.rewards[2].rewards_owed];
+                if got != want {
+                    acc.violation("sdk:owed_quote:rewards_function_level", format!("pool liquidity {lpool}, position liquidity {lpos}, {dt}s idle, rates {:?}: the program credits {want:?}, sdk collect_rewards_quote gives {got:?}", wp.reward_infos.iter().map(|x| x.emissions_per_second_x64).collect::<Vec<_>>()), json!({"case": case, "seed": seed}));
+                }
+            }
+            Err(e) => acc.violation("sdk:owed_quote:rewards_quote_fails_function_level", format!("pool liquidity {lpool}, position liquidity {lpos}, {dt}s idle: the program credits {want:?}, sdk error {e}"), json!({"case": case, "seed": seed})),
+        }
+    }
+    acc
+}
+
 /// Liquidity quotes: `increase_liquidity_quote` / `decrease_liquidity_quote` for the liquidity amount of every
 /// successful increase / decrease of the histories must give exactly what the owner paid / received
 /// (transfer fees included), and never fail there.
@@ -627,11 +712,14 @@ fn main() {
         || vec![Box::new(QuoteMon) as Box<dyn Monitor>, Box::new(LiqQuoteMon) as Box<dyn Monitor>, Box::new(OwedQuoteMon) as Box<dyn Monitor>],
     );
     acc.merge(acc2);
+    acc.merge(owed_rewards_sweep(seed, tier.pick(200_000, 5_000_000)));
     rep.acc = acc;
     rep.floor("ticks_compared", 887_273);
     rep.floor("slippage_price_bounds_checked", 20_000);
     rep.floor("owed_quotes_compared", 1_000);
     rep.floor("owed_quotes_with_pending_emissions", 20);
+    rep.floor("owed_reward_sweep_cases", 50_000);
+    rep.floor("owed_reward_sweep_liquidity_above_rate", 5_000);
     rep.floor("fee_reverse_both_ok", 50_000);
     rep.floor("fee_reverse_both_ok_above_2_63", 2_000);
     rep.floor("liquidity_quotes_compared", 2_000);
